@@ -298,6 +298,10 @@ class Interp(object):
                 self.rec.play(rid, pf)
             except RecordingKeyError:
                 pass
+            except V.Interrupt:
+                # the recording answers one of these output calls with a recorded interrupt-style exception (the
+                # recorded program swallowed it, this one does not): the replay ends by it, which is just as abnormal
+                pass
             self.abnormal += 1
             self.ctx.count('play:missing_key')
 
